@@ -5,7 +5,6 @@ and evaluation of MIR operands / rvalues to symbolic expressions.
 from expr import (mk_ref, mk_deref, mk_field, mk_variant, mk_cast, mk_discr, mk_bin, mk_un, mk_agg,
                   mk_call, const, depth)
 
-ENUM_DISCR = {"cactusref::link::Kind": True}
 
 
 def place_locals(pl):
@@ -68,6 +67,11 @@ class BodyInfo:
                     self.partial[d["l"]] = True
         # dynamic locals: not exactly one def, or depending on a dynamic local
         dyn = set(l for l in range(n) if len(self.defs[l]) != 1 or self.partial[l])
+        # what `next` hands out is always tracked per path: the rules refine it (adapted elements, filter facts)
+        for blk in fn.blocks:
+            t = blk["term"]
+            if t["k"] == "call" and t.get("callee") and t["callee"].get("def") == "core::iter::Iterator::next" and not t["dst"]["p"]:
+                dyn.add(t["dst"]["l"])
         changed = True
         while changed:
             changed = False
@@ -223,7 +227,7 @@ class BodyInfo:
         if k == "un":
             return mk_un(rv["op"], self.operand(rv["a"], val))
         if k == "discr":
-            return mk_discr(self.place(rv["pl"], val), ENUM_DISCR)
+            return mk_discr(self.place(rv["pl"], val), getattr(getattr(self.fn, "facts", None), "enum_discr", None))
         if k == "agg":
             names = rv.get("fields") or []
             ops = [self.operand(o, val) for o in rv["ops"]]
